@@ -187,10 +187,14 @@ impl BuildJob<'_> {
             sf.save(&mut ptx)?;
             // Fall through and treat it the same as a static file.
         }
-        if Path::new(&t).exists()
-            && !Path::new(&t).join(".").is_dir()
-            && (sf.is_override || !sf.is_generated())
-        {
+        // What is at the target's own name counts, not what a symbolic link there
+        // points to: a link made by the user (to a directory, or to nothing) is a
+        // file of theirs like any other and must not be replaced.
+        let t_is_file = match fs::symlink_metadata(Path::new(&t)) {
+            Ok(m) => !m.is_dir(),
+            Err(_) => false,
+        };
+        if t_is_file && (sf.is_override || !sf.is_generated()) {
             // an existing source file that was not generated by us.
             // This step is mentioned by djb in his notes.
             // For example, a rule called default.c.do could be used to try
